@@ -9,6 +9,21 @@
 #include <pthread.h>
 #include <stdlib.h>
 #include <string.h>
+#include <unistd.h>
+
+/* Two builds of this file: the plain one (op files, OS-scheduled stress) and, with -DSBA_SCHED, one linked with
+ * harness/detsched.c where every pthread mutex call of the LIBRARY is a schedule point (scenario / explore ops).
+ * The harness's own bookkeeping locks must not become schedule points there: they use the real functions. */
+#ifdef SBA_SCHED
+#    include "detsched.h"
+int __real_pthread_mutex_lock(pthread_mutex_t *m);
+int __real_pthread_mutex_unlock(pthread_mutex_t *m);
+#    define HLOCK(m) __real_pthread_mutex_lock(m)
+#    define HUNLOCK(m) __real_pthread_mutex_unlock(m)
+#else
+#    define HLOCK(m) pthread_mutex_lock(m)
+#    define HUNLOCK(m) pthread_mutex_unlock(m)
+#endif
 
 /* ------------------------------------------------------------------ page tracking (link-time wrap) */
 int __real_posix_memalign(void **out, size_t align, size_t size);
@@ -25,32 +40,56 @@ static size_t s_pg_n;      /* entries in use */
 static long s_pg_next;     /* next ordinal */
 static long s_pg_total;    /* pages ever obtained since `new` */
 static size_t s_page_size = 4096;
+/* pages the allocator gave back and the OS has not handed out again: a second free of one of them is a double release */
+static uintptr_t s_rel[MAXPAGES];
+static size_t s_rel_n;
+static long s_double_release;
 
 int __wrap_posix_memalign(void **out, size_t align, size_t size) {
     int rc = __real_posix_memalign(out, align, size);
     if (rc == 0 && align == size && align >= 1024) {
-        pthread_mutex_lock(&s_pg_lock);
+        HLOCK(&s_pg_lock);
+        for (size_t i = 0; i < s_rel_n; ++i) {
+            if (s_rel[i] == (uintptr_t)*out) {
+                s_rel[i] = s_rel[--s_rel_n];
+                break;
+            }
+        }
         HC_CHECK(s_pg_n < MAXPAGES);
         s_pg[s_pg_n].addr = (uintptr_t)*out;
         s_pg[s_pg_n].ord = s_pg_next++;
         s_pg[s_pg_n].cls = 0;
         ++s_pg_n;
         ++s_pg_total;
-        pthread_mutex_unlock(&s_pg_lock);
+        HUNLOCK(&s_pg_lock);
     }
     return rc;
 }
 
 void __wrap_free(void *p) {
-    if (p && (((uintptr_t)p) & 1023) == 0 && s_pg_n) {
-        pthread_mutex_lock(&s_pg_lock);
+    if (p && (((uintptr_t)p) & 1023) == 0 && (s_pg_n || s_rel_n)) {
+        bool found = false, twice = false;
+        HLOCK(&s_pg_lock);
         for (size_t i = 0; i < s_pg_n; ++i) {
             if (s_pg[i].addr == (uintptr_t)p) {
                 s_pg[i] = s_pg[--s_pg_n];
+                found = true;
+                if (s_rel_n < MAXPAGES) {
+                    s_rel[s_rel_n++] = (uintptr_t)p;
+                }
                 break;
             }
         }
-        pthread_mutex_unlock(&s_pg_lock);
+        for (size_t i = 0; !found && i < s_rel_n; ++i) {
+            if (s_rel[i] == (uintptr_t)p) {
+                twice = true;
+                ++s_double_release;
+            }
+        }
+        HUNLOCK(&s_pg_lock);
+        if (twice) {
+            return; /* reported through s_double_release; do not hand the page to free() a second time */
+        }
     }
     __real_free(p);
 }
@@ -59,7 +98,7 @@ void __wrap_free(void *p) {
 static long s_page_of(const void *ptr, size_t note_cls, size_t *cls_out, size_t *off_out) {
     uintptr_t base = ((uintptr_t)ptr) & ~(uintptr_t)(s_page_size - 1);
     long ord = -1;
-    pthread_mutex_lock(&s_pg_lock);
+    HLOCK(&s_pg_lock);
     for (size_t i = 0; i < s_pg_n; ++i) {
         if (s_pg[i].addr == base) {
             ord = s_pg[i].ord;
@@ -72,7 +111,7 @@ static long s_page_of(const void *ptr, size_t note_cls, size_t *cls_out, size_t 
             break;
         }
     }
-    pthread_mutex_unlock(&s_pg_lock);
+    HUNLOCK(&s_pg_lock);
     if (off_out) {
         *off_out = (size_t)((uintptr_t)ptr - base);
     }
@@ -100,7 +139,7 @@ static int s_bin_index(size_t cls) {
 static int s_quiescent(long *per_bin, int *nb) {
     int ok = 1, n = 5;
     memset(per_bin, 0, sizeof(long) * NBINS);
-    pthread_mutex_lock(&s_pg_lock);
+    HLOCK(&s_pg_lock);
     for (size_t i = 0; i < s_pg_n; ++i) {
         int b = s_pg[i].cls ? s_bin_index(s_pg[i].cls) : NBINS - 1;
         if (b >= NBINS) {
@@ -111,7 +150,7 @@ static int s_quiescent(long *per_bin, int *nb) {
             n = b + 1;
         }
     }
-    pthread_mutex_unlock(&s_pg_lock);
+    HUNLOCK(&s_pg_lock);
     for (int b = 0; b < n; ++b) {
         if (per_bin[b] > 1) {
             ok = 0;
@@ -135,39 +174,44 @@ static void s_par_add(void *p) {
     if (!p) {
         return;
     }
-    pthread_mutex_lock(&s_par_lock);
+    HLOCK(&s_par_lock);
     HC_CHECK(s_par_n < MAXPARENT);
     s_par[s_par_n++] = p;
-    pthread_mutex_unlock(&s_par_lock);
+    HUNLOCK(&s_par_lock);
 }
 
 static void s_par_del(void *p) {
-    pthread_mutex_lock(&s_par_lock);
+    HLOCK(&s_par_lock);
     for (size_t i = 0; i < s_par_n; ++i) {
         if (s_par[i] == p) {
             s_par[i] = s_par[--s_par_n];
             break;
         }
     }
-    pthread_mutex_unlock(&s_par_lock);
+    HUNLOCK(&s_par_lock);
 }
 
 static bool s_par_has(const void *p) {
     bool r = false;
-    pthread_mutex_lock(&s_par_lock);
+    HLOCK(&s_par_lock);
     for (size_t i = 0; i < s_par_n; ++i) {
         if (s_par[i] == p) {
             r = true;
             break;
         }
     }
-    pthread_mutex_unlock(&s_par_lock);
+    HUNLOCK(&s_par_lock);
     return r;
 }
 
+/* backend of the recording parent: the harness's exact-size allocator, or plain malloc (which recycles freed
+ * memory — needed to see what the allocator does when a parent block lands on memory of a page it returned) */
+static bool s_par_raw;
+static size_t s_par_base;
+
 static void *s_par_acquire(struct aws_allocator *a, size_t size) {
     (void)a;
-    void *p = hc_allocator()->mem_acquire(hc_allocator(), size);
+    void *p = s_par_raw ? malloc(size) : hc_allocator()->mem_acquire(hc_allocator(), size);
     s_par_add(p);
     return p;
 }
@@ -176,13 +220,17 @@ static void s_par_release(struct aws_allocator *a, void *p) {
     (void)a;
     if (p) {
         s_par_del(p);
-        hc_allocator()->mem_release(hc_allocator(), p);
+        if (s_par_raw) {
+            free(p);
+        } else {
+            hc_allocator()->mem_release(hc_allocator(), p);
+        }
     }
 }
 
 static void *s_par_realloc(struct aws_allocator *a, void *p, size_t oldsize, size_t newsize) {
     (void)a;
-    void *n = hc_allocator()->mem_realloc(hc_allocator(), p, oldsize, newsize);
+    void *n = s_par_raw ? realloc(p, newsize) : hc_allocator()->mem_realloc(hc_allocator(), p, oldsize, newsize);
     if (n) {
         if (p) {
             s_par_del(p);
@@ -194,7 +242,7 @@ static void *s_par_realloc(struct aws_allocator *a, void *p, size_t oldsize, siz
 
 static void *s_par_calloc(struct aws_allocator *a, size_t num, size_t size) {
     (void)a;
-    void *p = hc_allocator()->mem_calloc(hc_allocator(), num, size);
+    void *p = s_par_raw ? calloc(num, size) : hc_allocator()->mem_calloc(hc_allocator(), num, size);
     s_par_add(p);
     return p;
 }
@@ -222,7 +270,6 @@ struct blk {
 static struct blk s_blk[MAXBLK];
 static size_t s_nblk;
 static struct aws_allocator *s_sba;
-static long s_parent_base;
 static size_t s_hdr;
 
 static struct blk *s_find(const char *name) {
@@ -312,6 +359,21 @@ static void s_status(void) {
         }
         printf("\n");
     }
+}
+
+static void s_new(bool mt, bool raw_parent) {
+    HLOCK(&s_pg_lock);
+    s_pg_next = 0;
+    s_pg_total = 0;
+    s_rel_n = 0;
+    s_double_release = 0;
+    HUNLOCK(&s_pg_lock);
+    s_par_raw = raw_parent;
+    s_par_base = s_par_n;
+    s_sba = aws_small_block_allocator_new(&s_parent, mt);
+    HC_CHECK(s_sba);
+    s_page_size = aws_small_block_allocator_page_size(s_sba);
+    s_hdr = s_page_size - aws_small_block_allocator_page_size_available(s_sba);
 }
 
 static void s_reset(void) {
@@ -474,6 +536,431 @@ static void s_stress(int nthreads, long ops, uint64_t seed) {
            pages_peak, s_pg_n);
 }
 
+/* ------------------------------------------------------------------ long random history (plain -O2 stage)
+ * sizes 1..700 (bins and parent mixed), alternating grow / shrink phases so that pages drain and their memory
+ * goes back to malloc, which may later place a parent block on it.  Monitors: a new block overlaps no live block;
+ * a request <= 512 is a chunk boundary of its class inside a page the allocator holds, a larger one is a live
+ * block of the parent; patterns intact at release; bytes_active = sum of the classes of the live small blocks. */
+struct hblk {
+    uint8_t *p;
+    size_t n;
+    size_t cls;
+    uint8_t pat;
+};
+
+static void s_history(long steps, uint64_t seed, size_t maxlive, long phase) {
+    struct hblk *b = calloc(maxlive ? maxlive : 1, sizeof(*b));
+    size_t live = 0, live_max = 0;
+    char what[320] = "";
+    uint64_t rng = seed * 0x9E3779B97F4A7C15ull + 0x1234567ull;
+    long step = 0, n_big = 0, n_small = 0;
+    for (; step < steps && !what[0]; ++step) {
+        unsigned grow = ((step / phase) % 2 == 0) ? 70 : 30;
+        if (live < maxlive && (live == 0 || s_next(&rng) % 100 < grow)) {
+            size_t n = 1 + (size_t)(s_next(&rng) % 700);
+            uint8_t *p = aws_mem_acquire(s_sba, n);
+            uint8_t pat = (uint8_t)(s_next(&rng) | 1);
+            size_t off = 0, pcls = 0, cls = 0;
+            long ord = s_page_of(p, n <= 512 ? s_class_of(n) : 0, &pcls, &off);
+            if (n <= 512) {
+                cls = s_class_of(n);
+                ++n_small;
+                if (ord < 0) {
+                    snprintf(what, sizeof(what), "acquire(%zu) returned %s instead of a chunk of a page the allocator holds", n,
+                             s_par_has(p) ? "a block the parent still counts as handed out" : "a pointer into memory it does not own");
+                } else if (pcls != cls || off < s_hdr || (off - s_hdr) % cls || off + cls > s_page_size) {
+                    snprintf(what, sizeof(what), "acquire(%zu) returned page offset %zu of a class-%zu page: not a chunk boundary of class %zu",
+                             n, off, pcls, cls);
+                }
+            } else {
+                ++n_big;
+                if (ord >= 0 || !s_par_has(p)) {
+                    snprintf(what, sizeof(what), "acquire(%zu) returned a pointer that is not a live block of the parent", n);
+                }
+            }
+            for (size_t i = 0; i < live && !what[0]; ++i) {
+                if (p < b[i].p + b[i].n && b[i].p < p + n) {
+                    snprintf(what, sizeof(what), "new block of %zu bytes overlaps a live block of %zu bytes (offset %ld)", n, b[i].n,
+                             (long)(p - b[i].p));
+                }
+            }
+            if (what[0]) {
+                break;
+            }
+            memset(p, pat, n);
+            b[live].p = p;
+            b[live].n = n;
+            b[live].cls = cls;
+            b[live].pat = pat;
+            ++live;
+            if (live > live_max) {
+                live_max = live;
+            }
+        } else {
+            size_t i = (size_t)(s_next(&rng) % live);
+            for (size_t k = 0; k < b[i].n; ++k) {
+                if (b[i].p[k] != b[i].pat) {
+                    snprintf(what, sizeof(what), "live block of %zu bytes corrupted at byte %zu", b[i].n, k);
+                    break;
+                }
+            }
+            if (what[0]) {
+                break;
+            }
+            aws_mem_release(s_sba, b[i].p);
+            b[i] = b[--live];
+        }
+        if (step % 97 == 0) {
+            size_t exp = 0;
+            for (size_t i = 0; i < live; ++i) {
+                exp += b[i].cls;
+            }
+            size_t act = aws_small_block_allocator_bytes_active(s_sba);
+            if (act != exp) {
+                snprintf(what, sizeof(what), "bytes_active=%zu but the live small blocks' size classes sum to %zu", act, exp);
+            }
+        }
+    }
+    int quiescent = 1;
+    size_t active_end = 0;
+    if (!what[0]) {
+        for (size_t i = 0; i < live; ++i) {
+            for (size_t k = 0; k < b[i].n; ++k) {
+                if (b[i].p[k] != b[i].pat) {
+                    snprintf(what, sizeof(what), "live block of %zu bytes corrupted at byte %zu (final check)", b[i].n, k);
+                    break;
+                }
+            }
+        }
+    }
+    if (!what[0]) {
+        for (size_t i = 0; i < live; ++i) {
+            aws_mem_release(s_sba, b[i].p);
+        }
+        live = 0;
+        active_end = aws_small_block_allocator_bytes_active(s_sba);
+        long pb[NBINS];
+        int nb;
+        quiescent = s_quiescent(pb, &nb);
+        if (active_end != 0) {
+            snprintf(what, sizeof(what), "everything released but bytes_active=%zu", active_end);
+        } else if (!quiescent) {
+            snprintf(what, sizeof(what), "everything released but a size class still holds more than one page");
+        } else if ((long)s_par_n - (long)s_par_base > 11) {
+            /* the allocator's own structure + 2 lists per bin are all it may still hold from the parent */
+            snprintf(what, sizeof(what), "everything released but the parent still counts %ld blocks as handed out",
+                     (long)s_par_n - (long)s_par_base);
+        }
+    }
+    printf("P history seed=%llu steps=%ld ok=%d\n", (unsigned long long)seed, step, what[0] ? 0 : 1);
+    if (what[0]) {
+        printf("P MONITOR history step=%ld %s\n", step, what);
+    }
+    printf("H history small=%ld big=%ld live_max=%zu pages_obtained=%ld double_release=%ld\n", n_small, n_big, live_max, s_pg_total,
+           s_double_release);
+    free(b);
+    if (what[0]) {
+        /* the allocator's state is not to be trusted any more */
+        fflush(stdout);
+        _exit(0);
+    }
+}
+
+#ifdef SBA_SCHED
+/* ------------------------------------------------------------------ scripted threads under detsched
+ * scenario <size> <pre> <T>   main pre-acquires <pre> blocks of <size> bytes; T worker threads
+ * thread <give> tok...        next worker: receives <give> of the pre-acquired blocks (oldest first); program tokens:
+ *                             a = acquire <size>, rf / rl = release first / last owned, ra / rz = release all fifo / lifo
+ * run seed <s> | run explicit <csv> | run choices <csv>      one schedule
+ * explore <bound> <maxruns> <seed>   baseline (no preemption) + every single preemption of it (+ sampled second ones)
+ * Every run uses a fresh multi-threaded allocator.  Verdict after join: patterns intact, live blocks disjoint/owned,
+ * then everything is released: bytes_active = 0, <= 1 page per class, no page released twice, destroy returns all. */
+#    define SC_MAXT 4
+#    define SC_MAXPROG 64
+#    define SC_MAXB 400
+struct sc_thread {
+    int give;
+    int nprog;
+    char prog[SC_MAXPROG][4];
+    struct blk own[SC_MAXB];
+    size_t nown;
+    long bad_pattern;
+    size_t serial;
+};
+static struct {
+    size_t size;
+    int pre;
+    int nthreads, declared;
+    struct sc_thread th[SC_MAXT];
+} s_sc;
+
+struct sc_verdict {
+    int ok, rc, diverged;
+    char what[256];
+    size_t nsched;
+    int sched[4096];
+    size_t nevents;
+    unsigned char ev_kind[4096];
+};
+
+static void s_sc_release(struct sc_thread *th, size_t idx) {
+    struct blk *b = &th->own[idx];
+    if (!s_intact(b)) {
+        th->bad_pattern++;
+    }
+    aws_mem_release(s_sba, b->ptr);
+    memmove(b, b + 1, (th->nown - idx - 1) * sizeof(*b));
+    th->nown--;
+}
+
+static void *s_sc_worker(void *arg) {
+    struct sc_thread *th = arg;
+    int tid = (int)(th - s_sc.th) + 1;
+    for (int i = 0; i < th->nprog; ++i) {
+        const char *tk = th->prog[i];
+        if (!strcmp(tk, "a")) {
+            if (th->nown < SC_MAXB) {
+                struct blk *b = &th->own[th->nown++];
+                b->size = s_sc.size;
+                b->k = (size_t)tid * 7919u + th->serial++;
+                b->ptr = aws_mem_acquire(s_sba, b->size);
+                s_set_cls(b, b->size);
+                s_fill(b);
+            }
+        } else if (!strcmp(tk, "rf") && th->nown) {
+            s_sc_release(th, 0);
+        } else if (!strcmp(tk, "rl") && th->nown) {
+            s_sc_release(th, th->nown - 1);
+        } else if (!strcmp(tk, "ra")) {
+            while (th->nown) {
+                s_sc_release(th, 0);
+            }
+        } else if (!strcmp(tk, "rz")) {
+            while (th->nown) {
+                s_sc_release(th, th->nown - 1);
+            }
+        }
+    }
+    return NULL;
+}
+
+static void s_sc_main(void *arg) {
+    (void)arg;
+    pthread_t th[SC_MAXT];
+    for (int i = 0; i < s_sc.nthreads; ++i) {
+        HC_CHECK(pthread_create(&th[i], NULL, s_sc_worker, &s_sc.th[i]) == 0);
+    }
+    for (int i = 0; i < s_sc.nthreads; ++i) {
+        pthread_join(th[i], NULL);
+    }
+}
+
+static void s_sc_run(const struct ds_config *cfg, struct sc_verdict *v) {
+    static struct blk all[SC_MAXT * SC_MAXB + SC_MAXB];
+    memset(v, 0, sizeof(*v));
+    s_new(true, false);
+    /* main pre-acquires and hands the blocks out */
+    struct blk mainb[SC_MAXB];
+    size_t nmain = 0;
+    for (int i = 0; i < s_sc.pre && i < SC_MAXB; ++i) {
+        struct blk *b = &mainb[nmain++];
+        b->size = s_sc.size;
+        b->k = 100000u + (size_t)i;
+        b->ptr = aws_mem_acquire(s_sba, b->size);
+        s_set_cls(b, b->size);
+        s_fill(b);
+    }
+    size_t next = 0;
+    for (int i = 0; i < s_sc.nthreads; ++i) {
+        struct sc_thread *th = &s_sc.th[i];
+        th->nown = 0;
+        th->bad_pattern = 0;
+        th->serial = 0;
+        for (int g = 0; g < th->give && next < nmain; ++g) {
+            th->own[th->nown++] = mainb[next++];
+        }
+    }
+    ds_init(cfg);
+    v->rc = ds_run(s_sc_main, NULL);
+    v->diverged = ds_diverged();
+    const int *lst = NULL;
+    v->nsched = ds_schedule(&lst);
+    if (v->nsched > 4096) {
+        v->nsched = 4096;
+    }
+    memcpy(v->sched, lst, v->nsched * sizeof(int));
+    v->nevents = ds_event_count() < 4096 ? ds_event_count() : 4096;
+    for (size_t i = 0; i < v->nevents; ++i) {
+        v->ev_kind[i] = (unsigned char)ds_event_at(i)->kind;
+    }
+    if (v->rc != 0) {
+        char blocked[160] = "";
+        ds_describe_blocked(blocked, sizeof(blocked));
+        snprintf(v->what, sizeof(v->what), "%s (%s)", v->rc == 1 ? "deadlock" : "livelock", blocked);
+        return; /* library state is garbage: the caller reports and ends the process */
+    }
+    size_t n = 0;
+    long badp = 0;
+    for (int i = 0; i < s_sc.nthreads; ++i) {
+        badp += s_sc.th[i].bad_pattern;
+        for (size_t k = 0; k < s_sc.th[i].nown; ++k) {
+            all[n++] = s_sc.th[i].own[k];
+        }
+    }
+    for (size_t k = next; k < nmain; ++k) {
+        all[n++] = mainb[k];
+    }
+    int d, a, in, ow;
+    s_checks(all, n, &d, &a, &in, &ow);
+    size_t exp = 0;
+    for (size_t k = 0; k < n; ++k) {
+        exp += all[k].cls;
+    }
+    size_t act = aws_small_block_allocator_bytes_active(s_sba);
+    for (size_t k = 0; k < n; ++k) {
+        aws_mem_release(s_sba, all[k].ptr);
+    }
+    size_t act_end = aws_small_block_allocator_bytes_active(s_sba);
+    size_t reserved = aws_small_block_allocator_bytes_reserved(s_sba);
+    long pb[NBINS];
+    int nb;
+    int q = s_quiescent(pb, &nb);
+    long dbl = s_double_release;
+    aws_small_block_allocator_destroy(s_sba);
+    s_sba = NULL;
+    long pages_left = (long)s_pg_n, parent_left = (long)s_par_n - (long)s_par_base;
+    int misuse = ds_misuse_count();
+    if (badp || !in) {
+        snprintf(v->what, sizeof(v->what), "fill pattern of a live block destroyed (%ld at release, intact=%d)", badp, in);
+    } else if (!d || !ow || !a) {
+        snprintf(v->what, sizeof(v->what), "live blocks at join: disjoint=%d owned=%d align=%d", d, ow, a);
+    } else if (act != exp) {
+        snprintf(v->what, sizeof(v->what), "at join bytes_active=%zu but the live small blocks' size classes sum to %zu", act, exp);
+    } else if (act_end != 0) {
+        snprintf(v->what, sizeof(v->what), "everything released but bytes_active=%zu", act_end);
+    } else if (!q) {
+        snprintf(v->what, sizeof(v->what), "everything released but a size class still holds more than one page (bytes_reserved=%zu)",
+                 reserved);
+    } else if (dbl) {
+        snprintf(v->what, sizeof(v->what), "a page was handed to free() twice");
+    } else if (pages_left || parent_left) {
+        snprintf(v->what, sizeof(v->what), "destroy left pages=%ld parent blocks=%ld", pages_left, parent_left);
+    } else if (misuse) {
+        snprintf(v->what, sizeof(v->what), "mutex misuse reported by the scheduler (%d)", misuse);
+    }
+    v->ok = v->what[0] == 0;
+}
+
+static void s_sc_print_sched(const struct sc_verdict *v) {
+    printf("W schedule ");
+    for (size_t i = 0; i < v->nsched; ++i) {
+        printf("%s%d", i ? "," : "", v->sched[i]);
+    }
+    printf("\n");
+}
+
+static size_t s_parse_csv(char *s, int *out, size_t cap) {
+    size_t n = 0;
+    for (char *p = strtok(s, ","); p && n < cap; p = strtok(NULL, ",")) {
+        out[n++] = atoi(p);
+    }
+    return n;
+}
+
+static void s_sc_report(const struct sc_verdict *v, const char *how) {
+    printf("P sched %s ok=%d steps=%zu\n", how, v->ok, v->nsched);
+    if (!v->ok) {
+        printf("P MONITOR sched %s\n", v->what);
+        s_sc_print_sched(v);
+    }
+    if (v->rc != 0) {
+        fflush(stdout);
+        _exit(0);
+    }
+}
+
+static void s_sc_explore(int bound, long maxruns, uint64_t seed) {
+    static struct sc_verdict base, v, v2;
+    static int list[4200];
+    struct ds_config cfg = {.mode = DS_EXPLICIT, .list = list, .list_len = 0, .quantum = 1000000};
+    long runs = 0, fails = 0, skipped = 0;
+    s_sc_run(&cfg, &base);
+    ++runs;
+    if (!base.ok) {
+        s_sc_report(&base, "baseline");
+        return;
+    }
+    uint64_t rng = seed * 0x9E3779B97F4A7C15ull + 77;
+    int nthr = s_sc.nthreads + 1;
+    /* all (position, thread) pairs; visited in a seeded random order when there are more than the budget allows */
+    static unsigned pairs[4096 * (SC_MAXT + 1)];
+    size_t npairs = 0;
+    for (size_t i = 0; i < base.nsched; ++i) {
+        for (int t = 0; t < nthr; ++t) {
+            if (t != base.sched[i]) {
+                pairs[npairs++] = (unsigned)(i * 8 + (size_t)t);
+            }
+        }
+    }
+    if ((long)npairs > maxruns) {
+        for (size_t k = npairs - 1; k > 0; --k) {
+            size_t j = (size_t)(s_next(&rng) % (k + 1));
+            unsigned tmp = pairs[k];
+            pairs[k] = pairs[j];
+            pairs[j] = tmp;
+        }
+    }
+    for (size_t pi = 0; pi < npairs && runs < maxruns && !fails; ++pi) {
+        size_t i = pairs[pi] / 8;
+        {
+            int t = (int)(pairs[pi] % 8);
+            memcpy(list, base.sched, i * sizeof(int));
+            list[i] = t;
+            cfg.list_len = i + 1;
+            s_sc_run(&cfg, &v);
+            ++runs;
+            if (v.diverged) {
+                ++skipped; /* t was not enabled there: the run fell back to the default policy */
+                continue;
+            }
+            if (!v.ok) {
+                ++fails;
+                printf("P explore bound=1 runs=%ld failures=1\n", runs);
+                s_sc_report(&v, "preempt1");
+                return;
+            }
+            /* a sampled second preemption on top of this one */
+            if (bound >= 2) {
+                for (int rep = 0; rep < 2 && runs < maxruns; ++rep) {
+                    if (v.nsched <= i + 2) {
+                        break;
+                    }
+                    size_t j = i + 1 + (size_t)(s_next(&rng) % (v.nsched - i - 1));
+                    int t2 = (int)(s_next(&rng) % (uint64_t)nthr);
+                    if (t2 == v.sched[j]) {
+                        continue;
+                    }
+                    memcpy(list, v.sched, j * sizeof(int));
+                    list[j] = t2;
+                    cfg.list_len = j + 1;
+                    s_sc_run(&cfg, &v2);
+                    ++runs;
+                    if (!v2.diverged && !v2.ok) {
+                        printf("P explore bound=2 runs=%ld failures=1\n", runs);
+                        s_sc_report(&v2, "preempt2");
+                        return;
+                    }
+                    memcpy(list, base.sched, i * sizeof(int));
+                    list[i] = t;
+                }
+            }
+        }
+    }
+    printf("P explore bound=%d runs=%ld failures=0\n", bound, runs);
+    printf("H explore baseline_steps=%zu not_enabled=%ld\n", base.nsched, skipped);
+}
+#endif /* SBA_SCHED */
+
 /* ------------------------------------------------------------------ interpreter */
 int main(void) {
     char *t[HC_MAX_TOKS];
@@ -483,18 +970,45 @@ int main(void) {
         if (!strcmp(t[0], "case")) {
             s_reset();
             hc_case_begin(t[1]);
-        } else if (!strcmp(t[0], "new") && n == 2 && !s_sba && (!strcmp(t[1], "mt=0") || !strcmp(t[1], "mt=1"))) {
-            s_parent_base = hc_live_blocks();
-            pthread_mutex_lock(&s_pg_lock);
-            s_pg_next = 0;
-            s_pg_total = 0;
-            pthread_mutex_unlock(&s_pg_lock);
-            s_sba = aws_small_block_allocator_new(&s_parent, !strcmp(t[1], "mt=1"));
-            HC_CHECK(s_sba);
-            s_page_size = aws_small_block_allocator_page_size(s_sba);
-            s_hdr = s_page_size - aws_small_block_allocator_page_size_available(s_sba);
+        } else if (!strcmp(t[0], "new") && (n == 2 || (n == 3 && !strcmp(t[2], "malloc"))) && !s_sba &&
+                   (!strcmp(t[1], "mt=0") || !strcmp(t[1], "mt=1"))) {
+            s_new(!strcmp(t[1], "mt=1"), n == 3);
             printf("P new ok\n");
             s_status();
+#ifdef SBA_SCHED
+        } else if (!strcmp(t[0], "scenario") && n == 4 && !s_sba) {
+            memset(&s_sc, 0, sizeof(s_sc));
+            s_sc.size = hc_parse_size(t[1]);
+            s_sc.pre = atoi(t[2]);
+            s_sc.nthreads = atoi(t[3]);
+            if (s_sc.size == 0 || s_sc.pre < 0 || s_sc.pre > SC_MAXB || s_sc.nthreads < 1 || s_sc.nthreads > SC_MAXT) {
+                s_sc.nthreads = 0;
+                printf("bad-op\n");
+            }
+        } else if (!strcmp(t[0], "thread") && n >= 2 && !s_sba && s_sc.declared < s_sc.nthreads) {
+            struct sc_thread *th = &s_sc.th[s_sc.declared++];
+            th->give = atoi(t[1]);
+            for (int i = 2; i < n && th->nprog < SC_MAXPROG; ++i) {
+                strncpy(th->prog[th->nprog++], t[i], 3);
+            }
+        } else if (!strcmp(t[0], "run") && n == 3 && !s_sba && s_sc.nthreads && s_sc.declared == s_sc.nthreads) {
+            static struct sc_verdict v;
+            static int list[4200];
+            struct ds_config cfg = {.quantum = 1000000};
+            if (!strcmp(t[1], "seed")) {
+                cfg.mode = DS_SEED;
+                cfg.seed = hc_parse_u64(t[2]);
+                cfg.stay_pct = 60;
+            } else {
+                cfg.mode = !strcmp(t[1], "choices") ? DS_CHOICES : DS_EXPLICIT;
+                cfg.list_len = s_parse_csv(t[2], list, 4200);
+                cfg.list = list;
+            }
+            s_sc_run(&cfg, &v);
+            s_sc_report(&v, t[1]);
+        } else if (!strcmp(t[0], "explore") && n == 4 && !s_sba && s_sc.nthreads && s_sc.declared == s_sc.nthreads) {
+            s_sc_explore(atoi(t[1]), atol(t[2]), hc_parse_u64(t[3]));
+#endif
         } else if (!s_sba) {
             printf("bad-op\n");
         } else if (!strcmp(t[0], "acq") && n == 3) {
@@ -582,6 +1096,9 @@ int main(void) {
                 continue;
             }
             s_stress(nt, atol(t[2]), hc_parse_u64(t[3]));
+        } else if (!strcmp(t[0], "history") && (n == 4 || n == 5) && s_nblk == 0) {
+            long phase = n == 5 ? atol(t[4]) : 3000;
+            s_history(atol(t[1]), hc_parse_u64(t[2]), hc_parse_size(t[3]), phase > 0 ? phase : 3000);
         } else if (!strcmp(t[0], "destroy") && n == 1) {
             if (s_nblk) {
                 printf("bad-op\n");
@@ -589,7 +1106,7 @@ int main(void) {
             }
             aws_small_block_allocator_destroy(s_sba);
             s_sba = NULL;
-            printf("P destroyed pages_left=%zu parent_left=%ld\n", s_pg_n, hc_live_blocks() - s_parent_base);
+            printf("P destroyed pages_left=%zu parent_left=%ld\n", s_pg_n, (long)s_par_n - (long)s_par_base);
         } else {
             printf("bad-op\n");
         }
